@@ -332,8 +332,13 @@ def _mc_worker(job):
     W = build_W(k, rows, list(range(k)))
     locks = [1] + [0] * k + [1]
     import contextlib, io
-    with contextlib.redirect_stdout(io.StringIO()):
-        out = np.asarray(state.inf_retis(W.copy(), np.array(locks, dtype=float)), float)
+    try:
+        with contextlib.redirect_stdout(io.StringIO()):
+            out = np.asarray(state.inf_retis(W.copy(), np.array(locks, dtype=float)), float)
+    except Exception as exc:  # noqa: BLE001  (an in-domain matrix must give a probability matrix)
+        rec.case(key=[k, seed], nontrivial=True, classes=["mc-block"])
+        rec.violation(f"mc:exception:{type(exc).__name__}", f"k={k}: inf_retis raised {exc!r} on a full {k}x{k} block of unequal weights", {"part": "mc", "seed": seed})
+        return rec
     idx, block = idle_block(W, locks)
     per, P = oracle.matching_probs([[float(x) for x in r] for r in block])
     Pf = np.array(P)
@@ -357,7 +362,7 @@ def run(ctx):
         "the idle block has perm>0 (others are unreachable and counted); (b) Hypothesis matrices k<=11 with sh/wf column patterns, "
         "integer (1..1e4, x2) and real (1e-3..1e6) high-acceptance weights, busy subsets, row arrangements, plus row-rescaling and direct "
         "permanent_prob/quick_prob comparisons; (b') 13-16 idle paths with row-constant weights beside a 0-3 path high-acceptance block "
-        "(exact code paths: must agree to 1e-9 and must not use the Monte-Carlo routine); (c, thorough) blocks >12 (Monte-Carlo path): structure + loose band only. "
+        "(exact code paths: must agree to 1e-9 and must not use the Monte-Carlo routine); (c) blocks >12 (Monte-Carlo path; 8 / 32 matrices): no exception, doubly stochastic to 1e-6, within a loose band of the exact values. "
         "Oracle: independent subset-DP permanent (exact ints/Fractions up to 9x9, float DP without cancellation beyond). "
         "Non-trivial: >=2 idle plus rows with different weight rows, or >=1 busy real ensemble. Distinct = digest of (W, locks)."
     )
@@ -372,8 +377,8 @@ def run(ctx):
         ctx.note("exhaustive_part_complete", bool(complete))
     run_property(ctx, "random", rand_cases, body_rand, ctx.pick(2000, 20000))
     run_property(ctx, "large", large_cases, body_large, ctx.pick(64, 640), shards=ctx.procs, shrink=not ctx.quick)
-    if not ctx.quick and (not getattr(ctx, "part", None) or ctx.part == "mc"):
-        for r in pmap(ctx, _mc_worker, [(ctx.pid, derive_seed(ctx.seed, "mc", i)) for i in range(16)]):
+    if not getattr(ctx, "part", None) or ctx.part == "mc":
+        for r in pmap(ctx, _mc_worker, [(ctx.pid, derive_seed(ctx.seed, "mc", i)) for i in range(ctx.pick(8, 32))]):
             ctx.merge(r)
 
 
